@@ -3,6 +3,7 @@ package wire
 import (
 	"bytes"
 	"context"
+	"encoding/binary"
 	"errors"
 	"fmt"
 	"io"
@@ -140,6 +141,104 @@ type BinaryCopyReader struct {
 	typeMap  *pgtype.Map
 	reader   *CopyReader
 	scanners []Scanner
+	pending  []byte // bytes of the copy-in stream which have been received but not yet consumed
+	started  bool   // the stream header has been consumed
+	eof      bool   // the client ended the copy-in stream
+}
+
+// fill makes sure that at least n bytes of the copy-in stream are pending.
+// Rows are not aligned to CopyData messages, the client is free to split the
+// stream at any byte. io.EOF is returned when the stream ended before any of
+// the requested bytes have been received and io.ErrUnexpectedEOF if the stream
+// ended half way.
+func (r *BinaryCopyReader) fill(n int) error {
+	for len(r.pending) < n {
+		if r.eof {
+			if len(r.pending) == 0 {
+				return io.EOF
+			}
+
+			return io.ErrUnexpectedEOF
+		}
+
+		err := r.reader.Read()
+		if err == io.EOF {
+			r.eof = true
+			continue
+		}
+
+		if err != nil {
+			return err
+		}
+
+		r.pending = append(r.pending, r.reader.Msg...)
+	}
+
+	return nil
+}
+
+// next consumes the next n bytes of the copy-in stream.
+func (r *BinaryCopyReader) next(n int) ([]byte, error) {
+	err := r.fill(n)
+	if err != nil {
+		return nil, err
+	}
+
+	value := r.pending[:n]
+	r.pending = r.pending[n:]
+	return value, nil
+}
+
+// header consumes the file header if present: the signature, the flags field
+// and the header extension area.
+// https://www.postgresql.org/docs/current/sql-copy.html
+func (r *BinaryCopyReader) header() error {
+	r.started = true
+
+	err := r.fill(len(CopySignature))
+	if err == io.ErrUnexpectedEOF && !bytes.HasPrefix(CopySignature, r.pending) {
+		// NOTE: a stream which is shorter than the signature has no header
+		return nil
+	}
+
+	if err != nil {
+		return err
+	}
+
+	if !bytes.HasPrefix(r.pending, CopySignature) {
+		return nil
+	}
+
+	r.pending = r.pending[len(CopySignature):]
+
+	// NOTE: the flags field is ignored for now
+	_, err = r.next(4)
+	if err != nil {
+		return unexpectedEOF(err)
+	}
+
+	extension, err := r.next(4)
+	if err != nil {
+		return unexpectedEOF(err)
+	}
+
+	length := binary.BigEndian.Uint32(extension)
+	if length > math.MaxInt32 {
+		return fmt.Errorf("unexpected header extension length: %d", length)
+	}
+
+	_, err = r.next(int(length))
+	return unexpectedEOF(err)
+}
+
+// unexpectedEOF turns an end of stream in the middle of a header or row into
+// an error which is not mistaken for a regular end of stream.
+func unexpectedEOF(err error) error {
+	if err == io.EOF {
+		return io.ErrUnexpectedEOF
+	}
+
+	return err
 }
 
 // Read reads a single row from the copy-in stream. The read row is returned as a
@@ -150,49 +249,64 @@ func (r *BinaryCopyReader) Read(ctx context.Context) (_ []any, err error) {
 		return nil, ctx.Err()
 	}
 
-	// NOTE: read the next chunk from the copy-in stream if the current chunk is empty.
-	if len(r.reader.Msg) == 0 {
-		err = r.reader.Read()
+	if !r.started {
+		err = r.header()
 		if err != nil {
 			return nil, err
 		}
-
-		has := bytes.HasPrefix(r.reader.Msg, CopySignature)
-		if has {
-			_, err = r.reader.GetBytes(len(CopySignature))
-			if err != nil {
-				return nil, err
-			}
-
-			// NOTE: 2 x 32-bit integer fields are send after the signature which we ignore for now.
-			_, err = r.reader.GetBytes(8)
-			if err != nil {
-				return nil, err
-			}
-		}
 	}
 
-	fields, err := r.reader.GetUint16()
+	count, err := r.next(2)
 	if err != nil {
 		return nil, err
 	}
 
-	row := make([]any, fields)
-	for index := range fields {
-		length, err := r.reader.GetUint32()
-		if err != nil {
-			return nil, fmt.Errorf("unexpected field length: %w", err)
+	fields := binary.BigEndian.Uint16(count)
+
+	// NOTE: the file trailer consists of a 16-bit integer word containing -1.
+	// The remaining messages are consumed up until the client ended the copy.
+	if fields == math.MaxUint16 {
+		r.pending = nil
+		for !r.eof {
+			err = r.reader.Read()
+			if err == io.EOF {
+				r.eof = true
+				break
+			}
+
+			if err != nil {
+				return nil, err
+			}
 		}
+
+		return nil, io.EOF
+	}
+
+	if int(fields) != len(r.scanners) {
+		return nil, fmt.Errorf("unexpected number of fields: %d, expected %d", fields, len(r.scanners))
+	}
+
+	row := make([]any, fields)
+	for index := range row {
+		size, err := r.next(4)
+		if err != nil {
+			return nil, fmt.Errorf("unexpected field length: %w", unexpectedEOF(err))
+		}
+
+		length := binary.BigEndian.Uint32(size)
 
 		// NOTE: as a special case, -1 (or 255 255 255 255) indicates a NULL field value.
 		if length == math.MaxUint32 {
-			// r.row[index] = nil
 			continue
 		}
 
-		value, err := r.reader.GetBytes(int(length))
+		if length > math.MaxInt32 {
+			return nil, fmt.Errorf("unexpected field length: %d", int32(length))
+		}
+
+		value, err := r.next(int(length))
 		if err != nil {
-			return nil, fmt.Errorf("unexpected value: %w", err)
+			return nil, fmt.Errorf("unexpected value: %w", unexpectedEOF(err))
 		}
 
 		row[index], err = r.scanners[index](value)
